@@ -257,3 +257,20 @@ Proof.
   eexists _, _, _, _. split; [vm_compute; reflexivity|]. split; [vm_compute; discriminate|].
   split; [vm_compute; reflexivity|]. vm_compute. auto.
 Qed.
+
+(* Tie of the hand-written constants of Tx/Model.v (transaction type byte) and of Rlp/Model.v (the
+   encoder the signing model calls) to the source.  Gen/Consts.v is regenerated on every run by the
+   translator harness/cmd/gen_consts from the `const` declarations of pkg/ethsigner/transaction.go
+   and pkg/rlp/decode.go as they are NOW.  The models keep their own literals; this theorem is what
+   breaks when the type byte, an RLP prefix or the 55-byte threshold changes in the source. *)
+From FFS Require Gen.Consts.
+Theorem C01_source_constants :
+  Gen.Consts.ethsigner_TransactionType1559 = Z.of_N (b2n Tx.Model.TransactionType1559) /\
+  Gen.Consts.rlp_shortString = Z.of_N Rlp.Model.shortString /\
+  Gen.Consts.rlp_longString = Z.of_N Rlp.Model.longString /\
+  Gen.Consts.rlp_shortList = Z.of_N Rlp.Model.shortList /\
+  Gen.Consts.rlp_longList = Z.of_N Rlp.Model.longList /\
+  Gen.Consts.rlp_shortToLong = Z.of_N Rlp.Model.shortToLong /\
+  Gen.Consts.rlp_maxInt32 = Z.of_N Rlp.Model.maxInt32.
+Proof. vm_compute. repeat split; reflexivity. Qed.
+Print Assumptions C01_source_constants.
